@@ -262,13 +262,13 @@ class Runner:
             bounds = [(n * i // k, n * (i + 1) // k) for i in range(k)]
             res[w] = [None] * n
             for (a, b) in bounds:
-                jobs.append([w, a, b])
+                jobs.append([w, a, b, self.chunk_timeout])
         # run jobs with at most NPROC concurrent processes; restart after a culprit
         pending = list(jobs)
         active = []
         while pending or active:
             while pending and len(active) < NPROC:
-                w, a, b = pending.pop(0)
+                w, a, b, tmo = pending.pop(0)
                 if a >= b:
                     continue
                 self.counter += 1
@@ -277,20 +277,20 @@ class Runner:
                     f.write('\n'.join(cases[a:b]) + '\n')
                 cmd = self.cmd(w) + (extra_args or [])
                 p = _spawn(cmd, base + '.in', base + '.out', base + '.err')
-                active.append((p, w, a, b, base, time.time()))
+                active.append((p, w, a, b, base, time.time(), tmo))
             time.sleep(0.005)
             still = []
-            for (p, w, a, b, base, t0) in active:
+            for (p, w, a, b, base, t0, tmo) in active:
                 rc = p.poll()
                 timed_out = False
                 if rc is None:
-                    if time.time() - t0 > self.chunk_timeout:
+                    if time.time() - t0 > tmo:
                         p.kill()
                         p.wait()
                         timed_out = True
                         rc = -9
                     else:
-                        still.append((p, w, a, b, base, t0))
+                        still.append((p, w, a, b, base, t0, tmo))
                         continue
                 out = open(base + '.out').read().split('\n')
                 if out and out[-1] == '':
@@ -308,9 +308,18 @@ class Runner:
                     # the last line may be partial when the worker died mid-write
                     res[w][a:a + done] = out[:done]
                     if done < n:
-                        res[w][a + done] = 'HANG' if timed_out else 'ABORT(%s)' % rc
-                        if a + done + 1 < b:
-                            pending.insert(0, [w, a + done + 1, b])
+                        lo = a + done
+                        if timed_out and b - lo > 1:
+                            # a slow chunk is not a hanging case (the machine may be busy): only a case that exceeds
+                            # the watchdog on its own is a HANG; re-run what is left in two halves
+                            mid = (lo + b) // 2
+                            t2 = max(20, tmo // 2)
+                            pending.insert(0, [w, mid, b, t2])
+                            pending.insert(0, [w, lo, mid, t2])
+                        else:
+                            res[w][lo] = 'HANG' if timed_out else 'ABORT(%s)' % rc
+                            if lo + 1 < b:
+                                pending.insert(0, [w, lo + 1, b, tmo])
                 for ext in ('.in', '.out', '.err'):
                     try:
                         os.remove(base + ext)
